@@ -349,8 +349,11 @@ PROPS = {
                  "panic. A case in which the harness sampler overslept by > 50 ms is discarded (counted). Schedules: Start||Stop, Stop||Stop, Start||Start and "
                  "3-thread mixes over the two yield points, enumerated (quick: capped and every 8th observed in real time; thorough: exhaustive), each followed "
                  "by a final Stop and 4 periods of observation (no surviving stream). Hammer: 8 free-running goroutines. Non-trivial: a Start/Stop/RemoveEntity "
-                 "hits a running heartbeat; schedule with >=2 threads parked. Distinct by (timeout, subscribers, operation sequence) / schedule."),
-        "assumptions": ["timeouts are positive multiples of 100 ms (below that the announced duration rounds to 0 and time.NewTicker(0) aborts - outside the stated range)",
+                 "hits a running heartbeat; schedule with >=2 threads parked. Distinct by (timeout, subscribers, operation sequence) / schedule. Configurations: "
+                 "entities created with time-outs that are no multiple of 100 ms (130..290 ms): mean gap of 8-12 notified refreshes <= announced time-out x 1.3 "
+                 "+ 10 ms, with a control ticker of the harness deciding whether the case can be judged; a subscriber whose connection is stalled for 2-6 "
+                 "periods while Stop / RemoveEntity is called: counter advances by at most one after the call returned."),
+        "assumptions": ["timeouts are at least 100 ms (below that the announced duration rounds to 0 and time.NewTicker(0) aborts - outside the stated range)",
                         "timing tolerances from DESIGN A.6; a doubled period at 100 ms lies on the tolerance boundary"],
         "runs": [
             {"name": "histories", "run": "TestHeartbeatHistories", "kind": "rapid", "checks": {Q: 48, T: 3008}, "shards": {Q: 6, T: 16}, "shrinktime": "30s"},
@@ -358,6 +361,8 @@ PROPS = {
             {"name": "hammer", "run": "TestHeartbeatHammer", "kind": "plain", "shards": {Q: 1, T: 4}, "env": {"VERIF_ROUNDS": {Q: 200, T: 500}}},
             {"name": "regressions", "run": "TestScheduleRegressions", "kind": "plain"},
             {"name": "scenarios", "run": "TestSequentialScenarios", "kind": "plain"},
+            {"name": "announced", "run": "TestAnnouncedPeriod", "kind": "rapid", "checks": {Q: 16, T: 640}, "shards": {Q: 8, T: 16}, "shrinktime": "10s"},
+            {"name": "slowsubscriber", "run": "TestSlowSubscriber", "kind": "rapid", "checks": {Q: 16, T: 640}, "shards": {Q: 8, T: 16}, "shrinktime": "10s"},
         ],
     },
     "C17": {
